@@ -23,7 +23,7 @@ MANIFEST = {
              'HE: == symmetric, equal containers have the same hash key, the hash model hashes that key (C10_he_eq_sym, C10_he_frame_eq_hash, C10_he_series_eq_hash, '
              'C10_he_hash_model_is_key). The mask operands and include_none flags of TypeBlocks/Series/Index.equals, the equals keyword defaults and the keyword constants '
              'of SeriesHE/FrameHE.__eq__ are re-extracted from the source by ast on every run (Gen/Gen_c10.v); the theorems are stated over those generated constants '
-             '(C10_defaults_in_source, C10_masks_in_source, C10_he_options_in_source), as is the decision sequence of IndexHierarchy.equals and the fact that it never consults the cached label table (C10_hier_equals_walks_levels), and the decision sequences of Index/Series/Frame.equals together with the fact that no equals method looks at whether an index was auto-supplied (C10_equals_decisions_in_source). No known finding remains (four were found and repaired: f01dccf, c228306, a6983c4, e1c1c73); their inputs stay as regression cases. '
+             '(C10_defaults_in_source, C10_masks_in_source, C10_he_options_in_source), as is the decision sequence of IndexHierarchy.equals and the fact that it never consults the cached label table (C10_hier_equals_walks_levels), and the decision sequences of Index/Series/Frame.equals together with the fact that no equals method looks at whether an index was auto-supplied (C10_equals_decisions_in_source), and the decision sequences of Bus.equals and IndexLevel.equals incl. the body of the walk loop (C10_bus_level_decisions_in_source); the fuel of the tree-walk model always suffices (C10_level_walk_fuel_suffices). No known finding remains (four were found and repaired: f01dccf, c228306, a6983c4, e1c1c73); their inputs stay as regression cases. '
              'Correspondence: TypeBlocks.equals called directly on exhaustively enumerated small block pairs (all cell pairs of the alphabet x 1-D/2-D x skipna; all pairs of '
              'NaN masks x all pairs of layouts) and random multi-dtype tables; Frame/Series/Index/IndexHierarchy/Bus.equals, HE ==, !=, hash, set and dict membership '
              'through the public interface on pairs differing in exactly one cell, label, dtype, name, class, layout, shape or order, with NaN/None/NaT on one or both '
@@ -33,7 +33,7 @@ MANIFEST = {
              'Partial: the IndexLevel.equals tree walk is modelled (M_level_walk) and run against the implementation and against the flat-label specification, but M=S is '
              'NOT proved for hierarchies (the refinement theorems for Series/Frame/Bus require flat axes); the Python hash function itself is not modelled (assumption: '
              '==-equal scalars hash alike). Pairs of DIFFERENT missing values at one position (None vs NaN, NaT vs None, NaN vs NaT) are not determined by the property: '
-             'M is compared there, S is not. No open known finding; the inputs of the four repaired ones stay as regression cases (specification = correct behaviour).'),
+             'M is compared there, S is not. Not covered: timedelta64 / complex / tuple cells, datetime units other than D and s and equal instants across units, integers above 2**53, NaN labels, hierarchies deeper than 3, Bus stores other than zip-pickle, malformed hand-built IndexLevel trees (uneven depth). No open known finding; the inputs of the four repaired ones stay as regression cases (specification = correct behaviour).'),
     'technique': 'refinement proof M=S over all block layouts + generated constants + differential correspondence',
 }
 PROPERTY_FILES = ['Properties/C10.v']
@@ -45,14 +45,14 @@ RULE = ('kernel stratum: TypeBlocks.equals on block pairs -- every pair of 1-col
         'every pair of NaN masks of a 1xN float row x every pair of block layouts; api strata: a base container and a variant differing in exactly one of '
         '{nothing(copy), identity, cell, one-sided missing cell, label, order, shape, dtype, name, class, block layout, index kind}, for all 16 settings of '
         '(compare_name, compare_dtype, compare_class, skipna) on a fixed family and random settings elsewhere, both directions in one case; HE stratum: ==, !=, hash, '
-        'set and dict membership; auto-supplied indexes (no index=/columns=, IndexAutoFactory, unset_index; axis-index names set with rename(index=, columns=)) against each other and against explicit indexes of the same labels for every setting of compare_name/dtype/class, HE ==/!=/hash/set, and a whole-pool matrix checked for reflexivity, symmetry, transitivity and option monotonicity; histories of IndexHierarchyGO / FrameGO with hierarchical columns (readers at random points, append/extend/add-column of same or different labels, no reader between the last growth and equals; the answer must be a function of the current labels); triples for transitivity; malformed stream: other of another kind. A case is non-trivial when the two containers are different objects; '
+        'set and dict membership; IndexLevel.equals called directly on whole trees, subtrees and leaves (different lengths/depths, depth-1 levels, same object); TypeBlocks.equals routes no Frame reaches (same object, compare_class, different shapes, zero rows, other not a TypeBlocks); Bus.equals on Buses read lazily from a zip-pickle store (lazy vs memory, lazy vs lazy, max_persist=1); conversions to_series_he/to_series/to_frame_he/to_frame/to_frame_go/astype; unsigned, float32, bytes and datetime64[s] cells and labels, IndexDate/IndexSecond classes, date-typed inner levels of a hierarchy; flat IndexGO, depth-3 and date-typed grow-only histories; empty shapes; auto-supplied indexes (no index=/columns=, IndexAutoFactory, unset_index; axis-index names set with rename(index=, columns=)) against each other and against explicit indexes of the same labels for every setting of compare_name/dtype/class, HE ==/!=/hash/set, and a whole-pool matrix checked for reflexivity, symmetry, transitivity and option monotonicity; histories of IndexHierarchyGO / FrameGO with hierarchical columns (readers at random points, append/extend/add-column of same or different labels, no reader between the last growth and equals; the answer must be a function of the current labels); triples for transitivity; malformed stream: other of another kind. A case is non-trivial when the two containers are different objects; '
         'distinct = distinct (recipe pair, options).')
 ASSUMPTIONS = [
     'NumPy == on the generated scalars is Python == (True == 1 == 1.0, NaN/NaT self-unequal, None == None); integers stay below 2**53 so int/float comparison is exact',
     'a datetime64 array compared with an object array turns NaT into None (validated by the cases that put NaT against object columns)',
     'two tuples of pairwise ==-equal str/int/float/bool/date labels have the same Python hash (hash contract of the builtin scalar types); NaN labels are outside the quantifier',
     'CPython set/dict probing: same hash, then identity or stored_key == probe_key',
-    'only datetime64[D] among the datetime units; no timedelta64, complex or tuple cells (D11)',
+    'datetime units D and s only, and never the same instant in two units (a unit is part of the printed value); no timedelta64, complex or tuple cells (D11)',
 ]
 TRUSTED = ['generate(): ast extraction of the both-missing mask operands / include_none flags / equals defaults / HE __eq__ keyword constants (fails closed on any other shape of the source)']
 EXHAUSTIVE = {'quick': False, 'thorough': False}
@@ -215,8 +215,14 @@ def _hier_equals_steps(fn):
                 steps.append('return ' + ast.unparse(v.func) + '(' + ', '.join([ast.unparse(a) for a in v.args] + [k.arg for k in v.keywords]) + ')')
             else:
                 steps.append('return ' + ast.unparse(v))
+        elif isinstance(node, ast.For):
+            steps.append('for ' + ast.unparse(node.target) + ' in ' + ast.unparse(node.iter) + ': ' +
+                         ' ; '.join('if ' + ast.unparse(x.test) if isinstance(x, ast.If) else type(x).__name__ for x in node.body))
+        elif isinstance(node, ast.While):
+            steps.append('while ' + ast.unparse(node.test) + ': ' +
+                         ' ; '.join('if ' + ast.unparse(x.test) if isinstance(x, ast.If) else ast.unparse(x) if isinstance(x, ast.Assign) else type(x).__name__ for x in node.body))
         else:
-            steps.append(type(node).__name__ + ': ' + ast.unparse(node)[:80])
+            steps.append(type(node).__name__ + ': ' + ' '.join(ast.unparse(node).split())[:120])
     reads = any(isinstance(n, ast.Attribute) and n.attr in ('_blocks', '_recache') for n in ast.walk(fn))
     return [t.replace('"', "'") for t in steps], reads
 
@@ -286,7 +292,10 @@ def generate(repo):
     eq_methods = {'index': _method(ix, 'Index', 'equals'), 'series': _method(se, 'Series', 'equals'), 'frame': _method(fr, 'Frame', 'equals'),
                   'hier': _method(ih, 'IndexHierarchy', 'equals'), 'bus': _method(bu, 'Bus', 'equals'), 'tb': _method(tb, 'TypeBlocks', 'equals')}
     consults_auto = any(_consults_auto(f) for f in eq_methods.values())
-    steps = {k: _hier_equals_steps(eq_methods[k])[0] for k in ('index', 'series', 'frame')}
+    il = _parse(repo, f'{_CORE}/index_level.py')
+    eq_methods['level'] = _method(il, 'IndexLevel', 'equals')
+    consults_auto = consults_auto or _consults_auto(eq_methods['level'])
+    steps = {k: _hier_equals_steps(eq_methods[k])[0] for k in ('index', 'series', 'frame', 'bus', 'level')}
     zero_ok = _zero_columns_answered(_method(tb, 'TypeBlocks', 'equals'))
     _third_path_columnwise(_method(tb, 'TypeBlocks', '_ufunc_binary_operator'))
     lines = ['(* GENERATED on every run by tools/sfv/props/c10.py:generate from static_frame/core/{type_blocks,frame,series,index,index_hierarchy,bus}.py -- do not edit. *)',
@@ -303,7 +312,7 @@ def generate(repo):
     lines.append(f'Definition c10_hier_reads_cached_table : bool := {_b(ih_reads_table)}.')
     lines.append('(* Index / Series / Frame.equals: top-level decisions in order; and whether ANY equals method looks at how an index came about')
     lines.append('   (auto-supplied: _map is None / loc_is_iloc / IndexAutoFactory) *)')
-    for k in ('index', 'series', 'frame'):
+    for k in ('index', 'series', 'frame', 'bus', 'level'):
         lines.append(f'Definition c10_{k}_equals_steps : list string := ' + lit.lst([lit.s(t) for t in steps[k]]) + '%string.')
     lines.append(f'Definition c10_equals_consults_auto : bool := {_b(consults_auto)}.')
     lines.append('')
@@ -336,6 +345,10 @@ def dec(tok):
             return float('inf')
         if tok.startswith('@d:'):
             return np.datetime64(tok[3:], 'D')
+        if tok.startswith('@s:'):
+            return np.datetime64(tok[3:], 's')
+        if tok.startswith('@b:'):
+            return tok[3:].encode('ascii')
         raise ValueError(tok)
     if isinstance(tok, list):
         return tuple(dec(t) for t in tok)
@@ -349,7 +362,8 @@ def col_array(dtype, toks):
         for i, v in enumerate(vals):
             a[i] = v
     elif dtype.startswith('datetime64'):
-        a = np.array([np.datetime64(v, 'D') for v in vals], dtype=dtype) if vals else np.empty(0, dtype=dtype)
+        unit = dtype[dtype.index('[') + 1:-1]
+        a = np.array([np.datetime64(v, unit) for v in vals], dtype=dtype) if vals else np.empty(0, dtype=dtype)
     else:
         a = np.array(vals, dtype=dtype)
     a.flags.writeable = False
@@ -367,8 +381,11 @@ def build_index(rec):
         if rec.get('product'):
             # from_product shares one index object among all children of a depth
             return cls.from_product(*[[dec(t) for t in level] for level in rec['product']], name=dec(rec.get('name')))
-        return cls.from_labels([tuple(dec(t) for t in lab) for lab in rec['labels']], name=dec(rec.get('name')))
-    if rec['cls'].startswith('IndexDate'):
+        kw = {}
+        if rec.get('index_constructors'):
+            kw['index_constructors'] = [getattr(sf, c) for c in rec['index_constructors']]      # e.g. a date-typed inner level
+        return cls.from_labels([tuple(dec(t) for t in lab) for lab in rec['labels']], name=dec(rec.get('name')), **kw)
+    if rec['cls'].startswith(('IndexDate', 'IndexSecond', 'IndexYear')):
         return cls([dec(t) for t in rec['labels']], name=dec(rec.get('name')))
     if rec.get('auto'):
         # an index the library supplied itself (integers 0..n-1, no label map): taken from a Series built without index=
@@ -440,7 +457,8 @@ def _realise(ix, how):
     elif how == 'reversed':
         list(reversed(ix))
     elif how == 'iloc':
-        ix.iloc[0]
+        if len(ix):
+            ix.iloc[0]
     elif how == 'len':
         len(ix)
     elif how != 'none':
@@ -450,14 +468,25 @@ def _realise(ix, how):
 def build_index_history(rec):
     '''an IndexHierarchyGO with a HISTORY: ops are ['read', how] | ['append', label] | ['extend', labels]'''
     import static_frame as sf
-    ix = sf.IndexHierarchyGO.from_labels([tuple(dec(t) for t in lab) for lab in rec['labels']], name=dec(rec.get('name')))
+    if rec.get('flat'):
+        ix = sf.IndexGO([dec(t) for t in rec['labels']], name=dec(rec.get('name')))
+        for op in rec['ops']:
+            if op[0] == 'read':
+                _realise(ix, op[1])
+            elif op[0] == 'append':
+                ix.append(dec(op[1]))
+            elif op[0] == 'extend':
+                ix.extend([dec(t) for t in op[1]])
+        return ix
+    kw = {'index_constructors': [getattr(sf, c) for c in rec['index_constructors']]} if rec.get('index_constructors') else {}
+    ix = sf.IndexHierarchyGO.from_labels([tuple(dec(t) for t in lab) for lab in rec['labels']], name=dec(rec.get('name')), **kw)
     for op in rec['ops']:
         if op[0] == 'read':
             _realise(ix, op[1])
         elif op[0] == 'append':
             ix.append(tuple(dec(t) for t in op[1]))
         elif op[0] == 'extend':
-            ix.extend(sf.IndexHierarchy.from_labels([tuple(dec(t) for t in lab) for lab in op[1]]))
+            ix.extend(sf.IndexHierarchy.from_labels([tuple(dec(t) for t in lab) for lab in op[1]], **kw))
         else:
             raise ValueError(op)
     return ix
@@ -485,6 +514,7 @@ def build(rec):
 
 # ------------------------------------------------------------------------------------------ objects -> literals
 CLS = {'Frame': 1, 'FrameGO': 2, 'FrameHE': 3, 'Series': 10, 'SeriesHE': 11, 'Index': 20, 'IndexGO': 21, 'IndexDate': 22, 'IndexDateGO': 23,
+       'IndexSecond': 24, 'IndexSecondGO': 25, 'IndexYear': 26, 'IndexYearGO': 27,
        'IndexHierarchy': 30, 'IndexHierarchyGO': 31, 'Bus': 40, 'TypeBlocks': 50}
 
 
@@ -537,7 +567,7 @@ def frame_lit(f, ids):
 
 
 def bus_lit(b, ids):
-    frames = [frame_lit(f, ids) for f in b._series.values]
+    frames = [frame_lit(f, ids) for _, f in b.items()]          # items() loads what a lazy Bus has not loaded (or no longer holds)
     return f'(mk_ebus {ids(b)} {cls_id(b)} {lit.val(b._series._name)} {axis_lit(b._series._index, ids)} {lit.lst(frames)})'
 
 
@@ -734,10 +764,16 @@ ALPHA = {
     '<U2': ['a', 'b', 'ab'],
     'object': [None, '@nan', 1, 'a', 1.5, True, '@nat', '@d:2020-01-01'],
     'datetime64[D]': ['@d:2020-01-01', '@d:2020-01-02', '@nat'],
+    # further dtype kinds: unsigned, narrow float, bytes, a finer datetime unit (instants off midnight: never equal to a [D] value)
+    'uint8': [0, 1, 2, 255],
+    'float32': [0.0, 1.0, 1.5, '@nan'],
+    '|S2': ['@b:a', '@b:b', '@b:ab'],
+    'datetime64[s]': ['@s:2020-01-01T00:00:01', '@s:2020-01-02T10:00:00', '@nat'],
 }
 # a dtype that can hold the same (non-missing) values: the "one dtype differs" variants
 DTYPE_ALT = {'int64': ['float64', 'object'], 'float64': ['object'], 'bool': ['object'], '<U2': ['object', '<U3'],
-             'datetime64[D]': ['object'], 'object': []}
+             'datetime64[D]': ['object'], 'object': [], 'uint8': ['int64', 'float32', 'object'], 'float32': ['float64', 'object'],
+             '|S2': ['object', '|S3'], 'datetime64[s]': []}
 
 
 def _alt_ok(dtype, alt, toks):
@@ -1068,6 +1104,225 @@ def kernel_tb_cases(ctx):
         lb = ctx.rng.choice([zoo.layout_str(l) for l in zoo.layouts_for([d for d, _ in cb])])
         o = dict(DEFAULT_OPTS, skipna=ctx.rng.random() < 0.6, compare_dtype=ctx.rng.random() < 0.3)
         yield from pair_case(ctx, 'kernel:tb.equals-random', 'tb', tb_rec(ca, la), tb_rec(cb, lb), o, 'random')
+
+
+def kernel_tb_route_cases(ctx):
+    '''routes of TypeBlocks.equals no Frame reaches: the same object, compare_class, different shapes, other not a TypeBlocks'''
+    a = tb_rec([('float64', [1.0, '@nan']), ('int64', [1, 2])], '1s|1s')
+    for o in (dict(DEFAULT_OPTS), dict(DEFAULT_OPTS, skipna=False), dict(DEFAULT_OPTS, compare_class=True), dict(DEFAULT_OPTS, compare_class=True, compare_dtype=True)):
+        yield from pair_case(ctx, 'kernel:tb.equals-routes', 'tb', a, a, o, 'identity', identical=True)
+        yield from pair_case(ctx, 'kernel:tb.equals-routes', 'tb', a, tb_rec(a['cols'], '2d') if False else tb_rec([('float64', [1.0, '@nan']), ('int64', [1, 2])], '1d|1d'), o, 'copy')
+        yield from pair_case(ctx, 'kernel:tb.equals-routes', 'tb', a, tb_rec([('float64', [1.0, '@nan'])], '1s'), o, 'shape-columns')
+        yield from pair_case(ctx, 'kernel:tb.equals-routes', 'tb', a, tb_rec([('float64', [1.0]), ('int64', [1])], '1s|1s'), o, 'shape-rows')
+        yield from pair_case(ctx, 'kernel:tb.equals-routes', 'tb', a, tb_rec([('float64', []), ('int64', [])], '1s|1s'), o, 'shape-zero-rows')
+    t = build_tb(a)
+    import static_frame as sf
+    for other in (None, 1, t.values, sf.Frame(t.values), [1, 2]):
+        for o in (DEFAULT_OPTS, dict(DEFAULT_OPTS, compare_class=True)):
+            kw = {k: v for k, v in o.items() if k != 'compare_name'}
+            text, _ = lit.res(lambda: t.equals(other, **kw), lambda r: lit.b(bool(r)))
+            ctx.count('malformed:tb-other')
+            yield Case('malformed:non-container', {'call': f'TypeBlocks.equals({type(other).__name__} object, **opts)', 'opts': o, 'observed': text},
+                       py_fail=None if text == '(Ok false)' else f'TypeBlocks.equals({type(other).__name__}) -> {text}, expected False', tags={'kind': 'malformed'},
+                       key=json.dumps(['malformed-tb', type(other).__name__, o], sort_keys=True))
+
+
+def kernel_level_cases(ctx):
+    '''IndexLevel.equals called directly (IndexHierarchy.equals compares shapes first, so it never sees levels of different length
+    or depth, nor depth-1 levels): whole trees, subtrees, leaves, the same object, another kind of object'''
+    import static_frame as sf
+    recs = [ix_rec([['a', 1], ['a', 2], ['b', 1]], cls='IndexHierarchy'), ix_rec([['a', 1], ['a', 2], ['b', 1]], cls='IndexHierarchyGO'),
+            ix_rec([['a', 1], ['a', 2], ['b', 3]], cls='IndexHierarchy'), ix_rec([['a', 1], ['b', 1]], cls='IndexHierarchy'),
+            ix_rec([['a', 1, 'p'], ['a', 1, 'q'], ['b', 2, 'p']], cls='IndexHierarchy'), ix_rec([['a', 1, 'p'], ['a', 2, 'q'], ['b', 2, 'p']], cls='IndexHierarchy'),
+            ix_rec([['a', 1.0], ['a', 2.0], ['b', 1.0]], cls='IndexHierarchy', name='nm')]
+    prod = ix_rec([['a', 1], ['a', 2], ['b', 1], ['b', 2]], cls='IndexHierarchy')
+    prod['product'] = [['a', 'b'], [1, 2]]
+    recs.append(prod)
+    hs = [build(r) for r in recs]
+    levels = []
+    for k, h in enumerate(hs):
+        root = h._levels
+        levels.append((f'h{k}', root))
+        if root.targets is not None:
+            for j, t in enumerate(root.targets):
+                levels.append((f'h{k}.targets[{j}]', t))
+                if t.targets is not None:
+                    levels.append((f'h{k}.targets[{j}].targets[0]', t.targets[0]))
+    pairs = list(itertools.product(range(len(levels)), repeat=2))
+    ctx.rng.shuffle(pairs)
+    keep = [p for p in pairs if p[0] == p[1]][:4] + [p for p in pairs if p[0] != p[1]][:ctx.n(150, 1200)]
+    for i, j in keep:
+        (na, a), (nb, b) = levels[i], levels[j]
+        o = history_opts(ctx.rng)
+        ab = lit.res(lambda: a.equals(b, **o), lambda r: lit.b(bool(r)))[0]
+        ba = lit.res(lambda: b.equals(a, **o), lambda r: lit.b(bool(r)))[0]
+        ids = Ids()
+        la, lb = level_lit(a, ids), level_lit(b, ids)
+        ol = opts_lit(o)
+        if a is b:
+            m = None
+            s = f'(rb_eqb (Ok true) {ab})'
+        else:
+            m = f'(let a := {la} in let b := {lb} in rb_eqb (M_level_equals c10_cfgs {ol} a b) {ab} && rb_eqb (M_level_equals c10_cfgs {ol} b a) {ba})'
+            s = (f'(let a := mk_ehier 9001 30 VNone {la} in let b := mk_ehier 9002 30 VNone {lb} in '
+                 f'rb_eqb (Ok (S_hier_equals {ol} a b)) {ab} && rb_eqb (Ok (S_hier_equals {ol} b a)) {ba})')
+        ctx.count('level-pair', f'level-answer:{ab}')
+        yield Case('kernel:index_level.equals', {'call': f'{na}.equals({nb}, **opts) and back; h_k = sfv.props.c10.build(hierarchies[k])._levels', 'hierarchies': recs,
+                                                 'opts': o, 'observed': {'a.equals(b)': ab, 'b.equals(a)': ba}},
+                   m=m, s=s, py_fail=None if ab == ba else f'IndexLevel.equals not symmetric: {ab} / {ba}', tags={'kind': 'level', 'skipna': o['skipna']},
+                   nontrivial=a is not b, key=json.dumps(['level', na, nb, o], sort_keys=True))
+    root = hs[0]._levels
+    for other in (None, hs[0], hs[0]._levels.index, 'a'):
+        for o in (DEFAULT_OPTS, dict(DEFAULT_OPTS, compare_class=True)):
+            text, _ = lit.res(lambda: root.equals(other, **o), lambda r: lit.b(bool(r)))
+            yield Case('malformed:non-container', {'call': f'IndexLevel.equals({type(other).__name__} object, **opts)', 'opts': o, 'observed': text},
+                       py_fail=None if text == '(Ok false)' else f'IndexLevel.equals({type(other).__name__}) -> {text}, expected False', tags={'kind': 'malformed'},
+                       key=json.dumps(['malformed-level', type(other).__name__, o], sort_keys=True))
+
+
+def lazy_bus_cases(ctx):
+    '''Bus.equals loads what a Bus read from a store has not loaded yet (or no longer holds under max_persist)'''
+    import copy
+    import shutil
+    import tempfile
+    import static_frame as sf
+    rng = ctx.rng
+    tmp = tempfile.mkdtemp(prefix='c10_bus_')
+    try:
+        for k in range(ctx.n(10, 80)):
+            frames = []
+            for j, f in enumerate(base_frames(ctx, rng.randint(2, 3))):
+                f['name'] = 'f%d' % j
+                f['cls'] = 'Frame'
+                if f['index']['cls'].startswith('IndexHierarchy'):
+                    f['index'] = ix_rec(range(len(f['index']['labels'])))
+                f['cols'] = [(d, v) for d, v in f['cols'] if d != 'object'] or [('int64', [1] * len(f['index']['labels']))]
+                f['columns'] = ix_rec(['c%d' % i for i in range(len(f['cols']))])
+                f['layout'] = '|'.join('1s' for _ in f['cols'])
+                frames.append(f)
+            base = {'kind': 'bus', 'frames': frames, 'name': None}
+            mem = build_bus(base)
+            fp = os.path.join(tmp, f'b{k}.zip')
+            mem.to_zip_pickle(fp)
+            other = copy.deepcopy(base)
+            what = 'copy'
+            if rng.random() < 0.5:
+                vs = [x for x in frame_variants(rng, other['frames'][-1]) if x[0] in ('cell', 'label-index', 'label-columns', 'cell-missing-one-side')]
+                if vs:
+                    what, fv = rng.choice(vs)
+                    other['frames'][-1] = fv
+                    what = 'frame-' + what
+            fp2 = os.path.join(tmp, f'o{k}.zip')
+            build_bus(other).to_zip_pickle(fp2)
+            for mode, mk in (('lazy-vs-memory', lambda: (sf.Bus.from_zip_pickle(fp), build_bus(other))),
+                             ('lazy-vs-lazy', lambda: (sf.Bus.from_zip_pickle(fp), sf.Bus.from_zip_pickle(fp2))),
+                             ('max_persist-1', lambda: (sf.Bus.from_zip_pickle(fp, max_persist=1), sf.Bus.from_zip_pickle(fp2, max_persist=1)))):
+                a, b = mk()
+                o = history_opts(rng)
+                o['compare_name'] = False       # a Bus read from a store is named after the file
+                o['compare_class'] = False
+                cl = pair_case(ctx, 'api:bus.equals-lazy', 'bus', base, other, o, f'{mode}:{what}', objs=(a, b))
+                for c in cl:
+                    c.desc['call'] = f'a.equals(b, **opts) and back; a = Bus.from_zip_pickle(file written from build(a_recipe)){", max_persist=1" if mode.startswith("max") else ""}; mode {mode}'
+                    c.key = json.dumps(['lazy-bus', k, mode, base, other, o], sort_keys=True, default=str)
+                yield from cl
+    finally:
+        shutil.rmtree(tmp, ignore_errors=True)
+
+
+def route_cases(ctx):
+    '''small distinct routes: conversions between the HE / GO / plain classes, date-typed and unsigned / bytes labels, date-typed
+    inner levels of a hierarchy, depth-3 and date-typed grow-only histories, flat IndexGO histories, empty shapes'''
+    import copy
+    import static_frame as sf
+    rng = ctx.rng
+    some = [dict(DEFAULT_OPTS), dict(DEFAULT_OPTS, compare_class=True), dict(DEFAULT_OPTS, compare_dtype=True), dict(DEFAULT_OPTS, compare_name=True),
+            dict(DEFAULT_OPTS, skipna=False)]
+    # -- conversions (objects derived through the public interface)
+    sr = se_rec('float64', [1.0, '@nan', 2.5], index=ix_rec(['x', 'y', 'z']), name='nm')
+    s = build(sr)
+    for what, fn, rb in (('to_series_he', lambda x: x.to_series_he(), dict(sr, cls='SeriesHE')),
+                         ('to_series_he.to_series', lambda x: x.to_series_he().to_series(), sr),
+                         ('rename', lambda x: x.rename('other'), dict(sr, name='other')),
+                         ('astype-object', lambda x: x.astype(object), dict(sr, dtype='object'))):
+        for o in some:
+            yield from pair_case(ctx, 'api:routes', 'series', sr, rb, o, what, objs=(s, fn(s)))
+    fr = fr_rec([('float64', [1.0, '@nan']), ('int64', [1, 2])], layout='1s|1d', name='nm')
+    f = build(fr)
+    for what, fn, rb in (('to_frame_he.to_frame', lambda x: x.to_frame_he().to_frame(), fr), ('to_frame_go.to_frame_he', lambda x: x.to_frame_go().to_frame_he(), dict(fr, cls='FrameHE')),
+                         ('astype-float', lambda x: x.astype(float), dict(fr, cols=[('float64', [1.0, '@nan']), ('float64', [1.0, 2.0])], layout='2d'))):
+        for o in some:
+            yield from pair_case(ctx, 'api:routes', 'frame', fr, rb, o, what, objs=(f, fn(f)))
+    # -- label dtypes and date-typed index classes
+    flat = [(ix_rec([1, 2, 255], dtype='uint8'), ix_rec([1, 2, 255])), (ix_rec([1, 2, 255], dtype='uint8'), ix_rec([1, 2, -1])),
+            (ix_rec(['@b:a', '@b:b'], dtype='|S2'), ix_rec(['a', 'b'])), (ix_rec(['@b:a', '@b:b'], dtype='|S2'), ix_rec(['@b:a', '@b:b'], dtype='object')),
+            (ix_rec(['@d:2020-01-01', '@d:2020-01-02'], cls='IndexDate'), ix_rec(['@d:2020-01-01', '@d:2020-01-02'], dtype='object')),
+            (ix_rec(['@d:2020-01-01', '@d:2020-01-02'], cls='IndexDate'), ix_rec(['@d:2020-01-01', '@d:2020-01-03'], cls='IndexDateGO')),
+            (ix_rec(['@s:2020-01-01T00:00:01', '@s:2020-01-01T00:00:02'], cls='IndexSecond'), ix_rec(['@s:2020-01-01T00:00:01', '@s:2020-01-01T00:00:02'], cls='IndexSecondGO')),
+            (ix_rec(['@s:2020-01-01T00:00:01'], cls='IndexSecond'), ix_rec(['@d:2020-01-01'], cls='IndexDate')),
+            (ix_rec(['@s:2020-01-01T00:00:01', '@s:2020-01-01T00:00:02'], cls='IndexSecond', name='nm'), ix_rec(['@s:2020-01-01T00:00:01', '@s:2020-01-01T00:00:03'], cls='IndexSecond'))]
+    dated = ix_rec([['a', '@d:2020-01-01'], ['a', '@d:2020-01-02'], ['b', '@d:2020-01-01']], cls='IndexHierarchy')
+    dated['index_constructors'] = ['Index', 'IndexDate']
+    plain = ix_rec([['a', '@d:2020-01-01'], ['a', '@d:2020-01-02'], ['b', '@d:2020-01-01']], cls='IndexHierarchy')
+    dated2 = copy.deepcopy(dated)
+    dated2['labels'][1][1] = '@d:2020-01-05'
+    flat += [(dated, copy.deepcopy(dated)), (dated, plain), (dated, dated2), (dated, dict(copy.deepcopy(dated), cls='IndexHierarchyGO'))]
+    for ra, rb in flat:
+        for o in ALL_OPTS[::2] + [ALL_OPTS[1]]:
+            yield from pair_case(ctx, 'api:routes', 'index', ra, rb, o, 'label-dtype/class')
+    # the same as Series / Frame axes, and through HE
+    for ra, rb in flat[:6] + flat[-4:-1]:
+        n = len(ra['labels'])
+        if len(rb['labels']) != n:
+            continue
+        sa, sb = se_rec('int64', list(range(n)), index=ra, cls='SeriesHE'), se_rec('int64', list(range(n)), index=rb, cls='SeriesHE')
+        yield from he_case(ctx, 'series', sa, sb, 'label-dtype/class')
+        yield from pair_case(ctx, 'api:routes', 'series', sa, sb, rng.choice(some), 'label-dtype/class')
+    # -- empty shapes
+    e0 = fr_rec([('float64', []), ('int64', [])], layout='1s|1s')
+    for rb, what in ((fr_rec([('float64', []), ('int64', [])], layout='1d|1s'), 'zero-rows-copy'), (fr_rec([('float64', []), ('float64', [])], layout='2d'), 'zero-rows-dtype'),
+                     (fr_rec([('float64', [])], layout='1s'), 'zero-rows-shape'), (fr_rec([], index=ix_rec([]), columns=ix_rec([])), 'zero-rows-vs-0x0')):
+        for o in some:
+            yield from pair_case(ctx, 'api:routes', 'frame', e0, rb, o, what)
+    for o in some:
+        yield from pair_case(ctx, 'api:routes', 'series', se_rec('float64', []), se_rec('int64', []), o, 'empty-dtype')
+        yield from pair_case(ctx, 'api:routes', 'index', ix_rec([]), ix_rec([], cls='IndexGO', name='nm'), o, 'empty')
+    # -- grow-only histories: flat IndexGO, depth 3, date-typed inner level
+    for _ in range(ctx.n(25, 200)):
+        mode = rng.choice(['flat', 'depth3', 'dated'])
+        if mode == 'flat':
+            labels = rng.sample(['a', 'b', 'c', 'd'], rng.randint(0, 3))
+            rest = [x for x in ['e', 'f', 'g', 'h', 1] if x not in labels]
+            g = [['append', rest[0]], ['extend', rest[1:3]]][:rng.randint(1, 2)]
+            g2 = [['append', rest[3]], ['extend', rest[1:3]]][:len(g)]
+            ra = {'kind': 'index-history', 'flat': True, 'labels': labels, 'name': None, 'ops': _interleave(rng, g, 0.8, False)}
+            fin = labels + [rest[0]] + (rest[1:3] if len(g) > 1 else [])
+            variants = [('flat-other-history', dict(ra, ops=_interleave(rng, copy.deepcopy(g), 0.4, rng.random() < 0.2))),
+                        ('flat-built-at-once', ix_rec(fin, cls='IndexGO')), ('flat-static', ix_rec(fin)),
+                        ('flat-different-growth', dict(ra, ops=_interleave(rng, g2, 0.8, False)))]
+        elif mode == 'depth3':
+            labels = [['a', 1, 'p'], ['a', 1, 'q'], ['a', 2, 'p']]
+            g = [['append', ['a', 2, 'q']], ['append', ['b', 1, 'p']], ['extend', [['c', 1, 'p'], ['c', 1, 'q']]]][:rng.randint(1, 3)]
+            g2 = copy.deepcopy(g)
+            g2[-1] = ['append', ['a', 2, 'r']] if len(g) == 1 else (['append', ['b', 1, 'q']] if len(g) == 2 else ['extend', [['c', 1, 'p'], ['c', 2, 'q']]])
+            ra = {'kind': 'index-history', 'labels': labels, 'name': None, 'ops': _interleave(rng, g, 0.8, False)}
+            variants = [('depth3-other-history', dict(ra, ops=_interleave(rng, copy.deepcopy(g), 0.4, rng.random() < 0.2))),
+                        ('depth3-built-at-once', {'kind': 'index-history', 'labels': _final_labels(ra), 'name': None, 'ops': []}),
+                        ('depth3-different-growth', dict(ra, ops=_interleave(rng, g2, 0.8, False)))]
+        else:
+            labels = [['a', '@d:2020-01-01'], ['a', '@d:2020-01-02']]
+            g = [['append', ['a', '@d:2020-01-03']], ['append', ['b', '@d:2020-01-01']]][:rng.randint(1, 2)]
+            g2 = copy.deepcopy(g)
+            g2[-1] = ['append', [g[-1][1][0], '@d:2021-06-01']]
+            ra = {'kind': 'index-history', 'labels': labels, 'name': None, 'index_constructors': ['IndexGO', 'IndexDateGO'], 'ops': _interleave(rng, g, 0.8, False)}
+            variants = [('dated-other-history', dict(ra, ops=_interleave(rng, copy.deepcopy(g), 0.4, rng.random() < 0.2))),
+                        ('dated-built-at-once', dict(ra, labels=_final_labels(ra), ops=[])),
+                        ('dated-different-growth', dict(ra, ops=_interleave(rng, g2, 0.8, False)))]
+        for what, rb in variants:
+            cl = pair_case(ctx, 'api:index.equals-histories', 'index', ra, rb, history_opts(rng), what)
+            for c in cl:
+                c.desc['call'] = 'a.equals(b, **opts), b.equals(a, **opts) with a = sfv.props.c10.build(a_recipe) (grow-only index, then ops in order), nothing read in between'
+            yield from cl
 
 
 def fixed_witness_cases(ctx):
@@ -1616,12 +1871,16 @@ def malformed_cases(ctx):
 def cases(ctx):
     yield from fixed_witness_cases(ctx)
     yield from kernel_tb_cases(ctx)
+    yield from kernel_tb_route_cases(ctx)
+    yield from kernel_level_cases(ctx)
     yield from api_frame_cases(ctx)
     yield from api_series_cases(ctx)
     yield from api_index_cases(ctx)
     yield from history_cases(ctx)
+    yield from route_cases(ctx)
     yield from auto_index_cases(ctx)
     yield from api_bus_cases(ctx)
+    yield from lazy_bus_cases(ctx)
     yield from api_he_cases(ctx)
     yield from triple_cases(ctx)
     yield from malformed_cases(ctx)
